@@ -808,9 +808,275 @@ def check_C18(chk, R, S):
     chk.exhaustive = True
 
 
+# ---------------------------------------------------------------------------------------------
+# plugins: dispatcher (C15), mission (C16), random trip (C17)
+# ---------------------------------------------------------------------------------------------
+
+def run_plugin_class(chk, cls, cases, impl, to_text, monitor, nontrivial=lambda c, t: True, batch=1500):
+    import plugins  # noqa: F401
+    from common import run_driver, first_diff
+    for i in range(0, len(cases), batch):
+        part = cases[i:i + batch]
+        impls, texts = [], []
+        for j, c in enumerate(part):
+            r = impl(c)
+            extra = None
+            if isinstance(r, tuple):
+                r, extra = r
+            impls.append(list(r))
+            texts.append(to_text("p%d" % j, c, extra) if extra is not None else to_text("p%d" % j, c))
+        out = run_driver("".join(texts))
+        for j, c in enumerate(part):
+            m = out.get("p%d" % j, ["<no model output>"])
+            chk.record(cls, c if len(str(c)) < 1500 else {"ops": len(c.get("ops", []))}, nontrivial(c, impls[j]),
+                       feats=[cls + ":" + (o[0] if isinstance(o, (list, tuple)) else str(o)) for o in c.get("ops", [])][:40])
+            chk.validated += 1
+            viol = [x for x in monitor(c, impls[j]) if x.startswith(chk.prop)]
+            if viol:
+                small = c
+                if len(chk.violations) < 2:
+                    def fails(cc):
+                        rr = impl(cc)
+                        rr = rr[0] if isinstance(rr, tuple) else rr
+                        return any(x.startswith(chk.prop) for x in monitor(cc, list(rr)))
+                    small = shrink(c, fails, ops_candidates, budget=150)
+                rr = impl(small)
+                rr = rr[0] if isinstance(rr, tuple) else rr
+                chk.violation(cls, small, [x for x in monitor(small, list(rr)) if x.startswith(chk.prop)] or viol, extra={"impl": list(rr)[:60]})
+            else:
+                d = first_diff(impls[j], m)
+                if d is not None:
+                    chk.corr_break(cls, c, d, extra={"impl": impls[j][:60], "model": m[:60]})
+        if len(chk.violations) + len(chk.corr_breaks) > 6:
+            return
+
+
+def ops_candidates(case):
+    ops = case["ops"]
+    for i in range(len(ops)):
+        c = dict(case)
+        c["ops"] = ops[:i] + ops[i + 1:]
+        yield c
+
+
+def gen_disp_case(R, maxops=10):
+    ninst = R.choice([1, 1, 2])
+    nh = R.randint(1, 4)
+    beh = []
+    for h in range(nh):
+        table = []
+        for _ in range(R.randint(0, 3)):
+            res = R.choice(["continue", "continue", "interrupt", "none"])
+            ops = []
+            for _ in range(R.choices([0, 1, 2], weights=[5, 3, 1])[0]):
+                ops.append((R.choice(["reg", "unreg", "unreg"]), R.randrange(ninst), R.choice(["timer", "timer", "telem", "packet", "init", "finish"]),
+                            R.choice([h, h, R.randrange(nh)])))
+            table.append((res, ops))
+        beh.append(table)
+    ops = [("create", i) for i in range(ninst) if R.random() < 0.9]
+    for _ in range(R.randint(2, maxops)):
+        x = R.random()
+        i = R.randrange(ninst)
+        k = R.choice(["timer", "timer", "telem", "packet", "init", "finish"])
+        if x < 0.4:
+            ops.append(("reg", i, k, R.randrange(nh)))
+        elif x < 0.55:
+            ops.append(("unreg", i, k, R.randrange(nh)))
+        elif x < 0.6:
+            ops.append(("create", i))
+        else:
+            ops.append(("disp", i, k))
+    return {"ninst": ninst, "beh": beh, "ops": ops}
+
+
+def disp_exhaustive(maxlen):
+    """every history over {register h0/h1, unregister h0/h1, dispatch} for the timer chain of one
+    instance, for a few fixed behaviours incl. self-unregistering / registering / interrupting handlers"""
+    behs = [
+        [[("continue", [])], [("continue", [])]],
+        [[("continue", [("unreg", 0, "timer", 0)])], [("continue", [])]],
+        [[("continue", [])], [("continue", [("unreg", 0, "timer", 0)])]],
+        [[("interrupt", [])], [("continue", [("reg", 0, "timer", 0)])]],
+        [[("none", [("reg", 0, "timer", 1)])], [("interrupt", [("unreg", 0, "timer", 1)]), ("continue", [])]],
+    ]
+    alpha = [("reg", 0, "timer", 0), ("reg", 0, "timer", 1), ("unreg", 0, "timer", 0), ("unreg", 0, "timer", 1), ("disp", 0, "timer")]
+    for beh in behs:
+        for n in range(1, maxlen + 1):
+            for combo in itertools.product(alpha, repeat=n):
+                if not any(o[0] == "disp" for o in combo):
+                    continue
+                yield {"ninst": 1, "beh": beh, "ops": [("create", 0)] + list(combo) + [("disp", 0, "timer")]}
+
+
+def check_C15(chk, R, S):
+    import plugins
+    chk.rule = ("histories of create / register / unregister / dispatch over the five callback kinds, 1-2 protocol "
+                "instances, 1-4 handlers whose results (CONTINUE / INTERRUPT / None) and re-entrant (un)registrations "
+                "vary per invocation; small-scope exhaustive over one chain with self-unregistering / registering / "
+                "interrupting handlers (length <= %d), then random" % (4 if chk.tier == "quick" else 6))
+    run_plugin_class(chk, "disp-exhaustive", list(disp_exhaustive(4 if chk.tier == "quick" else 6)), plugins.run_disp_impl,
+                     plugins.disp_to_text, M.mon_C15)
+    run_plugin_class(chk, "disp-random", [gen_disp_case(R, 10 if chk.tier == "quick" else 40) for _ in range(S["sims"] * 4)],
+                     plugins.run_disp_impl, plugins.disp_to_text, M.mon_C15)
+    chk.exhaustive = True
+
+
+def gen_mission_case(R, maxops=14):
+    mode = R.choice(["no", "restart", "reverse", "reverse"])
+    tol = R.choice([0.5, 1.0, 0.25, 2.0])
+    n = R.choice([1, 1, 2, 2, 3, 4, 5])
+
+    def wp():
+        return (float(R.randint(-8, 8)), float(R.randint(-8, 8)), float(R.randint(0, 4))) if R.random() < 0.7 else \
+            (R.uniform(-8, 8), R.uniform(-8, 8), R.uniform(0, 4))
+    missions = [[wp() for _ in range(n)]]
+    ops = []
+    cur_m = None
+    for _ in range(R.randint(2, maxops)):
+        x = R.random()
+        if x < 0.15 or (cur_m is None and x < 0.5):
+            if R.random() < 0.3:
+                missions.append([wp() for _ in range(R.choice([1, 2, 3]))])
+            cur_m = R.choice(missions)
+            ops.append(("start", list(cur_m)))
+        elif x < 0.22:
+            ops.append(("stop",))
+            if R.random() < 0.5:
+                cur_m = None
+        elif x < 0.34:
+            ops.append(("setwp", R.choice([-1, 0, 0, 1, 1, 2, 3, 5, len(cur_m) if cur_m else 0, (len(cur_m) - 1) if cur_m else 0])))
+        elif x < 0.46:
+            ops.append(("setrev", R.random() < 0.5))
+        else:
+            m = cur_m or missions[0]
+            w = R.choice(m)
+            y = R.random()
+            if y < 0.5:
+                p = w
+            elif y < 0.65:
+                p = (w[0] + tol, w[1], w[2])                  # exactly on the tolerance boundary
+            elif y < 0.8:
+                p = (w[0] + tol * 0.5, w[1] - tol * 0.5, w[2])
+            else:
+                p = (w[0] + tol * 1.5, w[1] + 3.0, w[2])
+            ops.append(("telem", p))
+    return {"speed": R.choice([5.0, 1.0, 12.5]), "mode": mode, "tol": tol, "ops": ops}
+
+
+def mission_exhaustive(maxlen):
+    for mode in ("no", "restart", "reverse"):
+        for n in (1, 2, 3):
+            m = [(float(3 * i), 0.0, 0.0) for i in range(n)]
+            alpha = [("start", m), ("stop",), ("setwp", 0), ("setwp", n - 1), ("setwp", n), ("setrev", True), ("setrev", False)] + \
+                    [("telem", w) for w in m] + [("telem", (100.0, 0.0, 0.0))]
+            for k in range(1, maxlen + 1):
+                for combo in itertools.product(alpha, repeat=k):
+                    yield {"speed": 5.0, "mode": mode, "tol": 0.5, "ops": [("start", m)] + list(combo)}
+
+
+def check_C16(chk, R, S):
+    import plugins
+    chk.rule = ("histories of start / stop / set-waypoint / set-reversed / telemetry (on the waypoint, inside, exactly on "
+                "and outside the tolerance) for mission lengths 1-5 and the three loop modes; small-scope exhaustive "
+                "(lengths 1-3, histories <= %d after a start), then random" % (3 if chk.tier == "quick" else 4))
+    cases = []
+    for item in corpus("C16"):
+        cases.append(item["case"])
+    run_plugin_class(chk, "mission-exhaustive", cases + list(mission_exhaustive(3 if chk.tier == "quick" else 4)),
+                     plugins.run_mission_impl, plugins.mission_to_text, M.mon_C16)
+    run_plugin_class(chk, "mission-random", [gen_mission_case(R, 14 if chk.tier == "quick" else 60) for _ in range(S["sims"] * 4)],
+                     plugins.run_mission_impl, plugins.mission_to_text, M.mon_C16)
+    chk.exhaustive = True
+
+
+def gen_trip_case(R, scripted=False, maxops=14):
+    def rng():
+        a = float(R.randint(-60, 40))
+        return (a, a + R.choice([0.0, 1.0, 10.0, 100.0, 37.5]))
+    box = (rng(), rng(), rng())
+    tol = R.choice([1.0, 0.5, 2.0])
+    ops = []
+    for _ in range(R.randint(2, maxops)):
+        x = R.random()
+        if x < 0.25:
+            ops.append(("init",))
+        elif x < 0.4:
+            ops.append(("finish",))
+        elif x < 0.5:
+            ops.append(("travel",))
+        elif x < 0.85:
+            ops.append(("telem", None))
+        elif x < 0.95:
+            ops.append(("telem+finish", None))
+        else:
+            ops.append(("telem+init", None))
+    case = {"box": box, "tol": tol, "ops": ops}
+    if scripted:
+        case["stream"] = [R.choice([0.0, 1.0 - 2.0 ** -53, 0.5, R.random(), R.random()]) for _ in range(6 * len(ops) + 6)]
+    else:
+        case["seed"] = R.randrange(1 << 30)
+    # telemetry positions: near / at / far from the target the MODEL-independent way: replay the draws
+    st = list(case["stream"]) if scripted else [x for x in _seeded(case["seed"], 6 * len(ops) + 6)]
+    cur, target, ongoing = 0, None, False
+    for i, op in enumerate(ops):
+        if op[0] in ("init", "travel"):
+            w = tuple(box[k][0] + (box[k][1] - box[k][0]) * st[cur + k] for k in range(3))
+            cur += 3
+            if op[0] == "init":
+                target, ongoing = w, True
+        elif op[0] == "finish":
+            ongoing = False
+        elif op[0] in ("telem", "telem+finish", "telem+init"):
+            y = R.random()
+            base = target if target is not None else (0.0, 0.0, 0.0)
+            if y < 0.45:
+                p = base
+            elif y < 0.6:
+                p = (base[0] + tol, base[1], base[2])
+            elif y < 0.75:
+                p = (base[0] + tol * 0.4, base[1] - tol * 0.4, base[2])
+            else:
+                p = (base[0] + 3 * tol, base[1] + 7.0, base[2])
+            ops[i] = (op[0], p)
+            if ongoing and target is not None and M._py_sq(p, target) <= tol * tol:
+                w = tuple(box[k][0] + (box[k][1] - box[k][0]) * st[cur + k] for k in range(3))
+                cur += 3
+                target = w
+            if op[0] == "telem+finish":
+                ongoing = False
+            elif op[0] == "telem+init":
+                w = tuple(box[k][0] + (box[k][1] - box[k][0]) * st[cur + k] for k in range(3))
+                cur += 3
+                target, ongoing = w, True
+    return case
+
+
+def _seeded(seed, n):
+    r = random.Random(seed)
+    return [r.random() for _ in range(n)]
+
+
+def check_C17(chk, R, S):
+    import plugins
+    chk.rule = ("histories of initiate / finish / telemetry (at, inside, exactly on, outside the tolerance of the current "
+                "target) / travel / status queries after every call; draws from the seeded generator and from scripted "
+                "streams that include the ends of the box (0 and 1-2^-53)")
+
+    def impl(c):
+        r, d = plugins.run_trip_impl(c)
+        return r, plugins.trip_stream(c, d)
+    run_plugin_class(chk, "trip-seeded", [gen_trip_case(R, False, 14 if chk.tier == "quick" else 50) for _ in range(S["sims"] * 2)],
+                     impl, plugins.trip_to_text, M.mon_C17)
+    run_plugin_class(chk, "trip-scripted", [gen_trip_case(R, True, 14 if chk.tier == "quick" else 50) for _ in range(S["sims"] * 2)],
+                     impl, plugins.trip_to_text, M.mon_C17)
+    fresh = [{"box": ((-50.0, 50.0), (-50.0, 50.0), (0.0, 50.0)), "tol": 1.0, "seed": 1, "ops": ops}
+             for ops in ([("finish",)], [("telem", (0.0, 0.0, 0.0))], [("finish",), ("finish",), ("init",), ("init",), ("finish",), ("telem", (0.0, 0.0, 0.0))])]
+    run_plugin_class(chk, "trip-fresh-plugin", fresh, impl, plugins.trip_to_text, M.mon_C17)
+
+
 CHECKS = {"C01": check_C01, "C02": check_C02, "C03": check_C03, "C04": check_C04, "C05": check_C05, "C06": check_C06,
           "C07": check_C07, "C08": check_C08, "C09": check_C09, "C10": check_C10, "C11": check_C11, "C12": check_C12,
-          "C13": check_C13, "C18": check_C18}
+          "C13": check_C13, "C15": check_C15, "C16": check_C16, "C17": check_C17, "C18": check_C18}
 
 
 def main():
